@@ -30,7 +30,7 @@ ASSUMPTIONS = [
     "a frame whose reference reading contains an undefined or not-available code may be rejected (connection reset) or delivered with the defined fields right",
     "after a malformed point the rest of that connection's bytes carry no obligation (the client resets the connection)",
 ]
-PROBES = ["c17.long_unknown_frame", "c17.longer_stride_repeated", "c17.declared_count_mismatch", "c17.unknown_type", "c17.unknown_ext_sub", "c17.unknown_cs_sub", "c17.longer_stride", "c17.mutated_len", "c17.mutated_type",
+PROBES = ["c17.partial_record", "c17.long_unknown_frame", "c17.longer_stride_repeated", "c17.declared_count_mismatch", "c17.unknown_type", "c17.unknown_ext_sub", "c17.unknown_cs_sub", "c17.longer_stride", "c17.mutated_len", "c17.mutated_type",
           "c17.mutated_payload", "c17.truncated", "c17.random", "c17.rejected_then_recovered"]
 
 
@@ -58,6 +58,9 @@ def generate(rng, index: int, tier: str) -> dict:
                 # "all payloads": an unknown frame far longer than anything defined (16-bit length field)
                 f, k = framegen.long_frame(rng, gen, size=rng.choice(framegen.LONG_SIZES + framegen.HUGE_SIZES))
                 info["long"] = True
+            elif rng.random() < 0.07:
+                f, k = framegen.foreign_address_frame(rng, gen)  # unknown addresses: another client's traffic on the link
+                info["foreign_address"] = True
             elif rng.random() < 0.65:
                 f, k = framegen.unknown_frame(rng, gen)
             else:
@@ -99,7 +102,20 @@ def generate(rng, index: int, tier: str) -> dict:
         victim = rng.randrange(len(frames))
         fr = bytearray(frames[victim])
         hl = 8 if gen == 4 else 20
-        where = rng.choice(["len", "type", "payload", "payload", "subhdr", "addr"] + (["count", "count"] if gen == 5 else []))
+        where = rng.choice(["len", "type", "payload", "payload", "subhdr", "addr"] + (["count", "count"] if gen == 5 else ["partial", "partial"]))
+        if where == "partial":
+            # an AT4 status frame (fixed record size, no count field) whose payload is not a whole number of records - a record
+            # cut short or a few stray bytes behind the last one - with length field and check bytes consistent
+            from ref import wire4
+
+            t, stride = rng.choice([(wire4.T_GROUP_STATUS, 6), (wire4.T_AC_STATUS, 8), (wire4.T_TIMER_STATUS, 8), (wire4.T_TIMER_CTRL, 8)])
+            n = rng.choice([0, 1, 2, 3, 4])
+            k = rng.choice([stride // 2, 1, stride - 1, rng.randint(1, stride - 1)])
+            body = bytes(rng.randrange(256) for _ in range(n * stride + k))
+            if t == wire4.T_GROUP_STATUS and n:
+                body = b"".join(wire4.enc_group_status_record(dict(G.zone_state(rng, 4), group=i)) for i in range(n)) + body[n * stride:]
+            fr = bytearray(wire4.f_status(rng.randrange(256), t, body))
+            frames[victim] = bytes(fr)
         if where == "count":
             # an AT5 0xC0 frame whose declared record count disagrees with the records present, everything else consistent
             from ref import wire5
@@ -199,6 +215,8 @@ def execute(sc: dict) -> dict:
         probes["c17.mutated_" + {"len": "len", "type": "type"}.get(info.get("where"), "payload")] = 1
     if cls in ("truncated", "random"):
         probes["c17." + cls] = 1
+    if info.get("where") == "partial":
+        probes["c17.partial_record"] = 1
     # 1. nothing beyond what the reference receiver finds
     if len(got) > len(refs):
         V.append(viol("C17.delivered_from_malformed", {"reference_frames": len(refs), "delivered": len(got), "verdict": verdict,
@@ -213,6 +231,14 @@ def execute(sc: dict) -> dict:
             if recs is not None and len(recs) != r["rcount"]:
                 V.append(viol("C17.misread", {"frame": frames[i]["raw"].hex(), "declared_records": r["rcount"], "delivered_records": len(recs),
                                               "delivered_kind": m["reading"]["kind"]}, kind=m["reading"]["kind"], at="record_count"))
+                break
+        if r["kind"] == "undef" and r.get("partial_record"):
+            # the payload is not a whole number of records: a status / control message made from the whole records in front
+            # (the rest silently dropped) is not what these bytes say
+            recs = next((v for k, v in m["reading"].items() if isinstance(v, list) and k in ("groups", "acs", "timers")), None)
+            if recs is not None:
+                V.append(viol("C17.misread", {"frame": frames[i]["raw"].hex(), "payload_bytes": r["nbytes"], "record_size": r["stride"], "delivered_records": len(recs),
+                                              "delivered_kind": m["reading"]["kind"]}, kind=m["reading"]["kind"], at="partial_record"))
                 break
         d = readcmp.compare(gen, r, m["reading"])
         hard = [x for x in d if x["cls"] != "sentinel"]
